@@ -1,14 +1,16 @@
 import JunoModel.Common.Proto
 import JunoModel.C14.Model
+import JunoModel.C14.Codec
 /-! Line-protocol driver for the C14 model (`lake build c14drv`).
 
 Requests (numbers are decimal):
+  `decode <hex>` (record payload bytes -> what `decodeWALRecord` yields, `err` when it rejects)
   `set h e` | `del h` | `flush <fault>` | `close <fault>` | `open` | `load` | `disk`
   `bases <cop> <fault>`            every durable state of the operation: `<disk>|<infl>` joined by ` ; `
   `img <cop> <fault> <i> <mask>`   the crash image and what a restart sees: `<disk> => <recover>`
   `crash <cop> <fault> <i> <mask>` the process dies, the directory becomes that image
-with `<fault>` one of `none append norepair wm`, `<cop>` one of `idle flush close open`,
-`<mask>` a string of `0`/`1` (`-` when empty). -/
+with `<fault>` one of `none append norepair wm create wmsync rotate unlink:<k>`, `<cop>` one of `idle flush close open`,
+`<mask>` a string of `0`/`1` (`-` when empty), prefixed with `~` to undo an undurable watermark rename. -/
 open Juno.Proto Juno.C14
 
 def fmtList (xs : List String) (sep : String) : String :=
@@ -24,6 +26,10 @@ def fmtDisk (d : Disk) : String :=
   "files=" ++ fmtList (d.files.map fmtFile) "," ++ " zombies=" ++ fmtList (d.zombies.map fmtFile) ","
     ++ " wm=" ++ (match d.wm with | some w => toString w | none => "-")
     ++ " tmp=" ++ (if d.tmp then "1" else "0")
+    ++ " alt=" ++ (match d.wmAlt with
+      | none => "-"
+      | some none => "none"
+      | some (some w) => toString w)
 
 def fmtOut : Outcome → String
   | .ok => "ok"
@@ -39,12 +45,19 @@ def fmtRecover (r : Except OpenErr (List (Nat × List Nat))) : String :=
   | .ok l => "ok " ++ fmtLoad l
   | .error .corruptLog => "err-open"
 
-def parseFault : String → Option Fault
+def parseFault (f : String) : Option Fault :=
+  match f with
   | "none" => some .none
   | "append" => some .append
   | "norepair" => some .appendNoRepair
   | "wm" => some .watermark
-  | _ => none
+  | "create" => some .create
+  | "wmsync" => some .wmSync
+  | "rotate" => some .rotate
+  | _ =>
+    match f.splitOn ":" with
+    | ["unlink", k] => k.toNat?.map Fault.unlink
+    | _ => none
 
 def parseCOp (c : String) (ft : Fault) : Option COp :=
   match c with
@@ -54,12 +67,37 @@ def parseCOp (c : String) (ft : Fault) : Option COp :=
   | "open" => some .reopen
   | _ => none
 
-def parseMask (m : String) : Option (List Bool) :=
+def parseBits (m : String) : Option (List Bool) :=
   if m == "-" then some [] else
   m.toList.foldr (fun c acc => match acc, c with
     | some l, '1' => some (true :: l)
     | some l, '0' => some (false :: l)
     | _, _ => none) (some [])
+
+/-- `<mask>` or `~<mask>` (the undurable watermark rename is undone as well) -/
+def parseMask (m : String) : Option (List Bool × Bool) :=
+  match m.toList with
+  | '~' :: rest => (parseBits (String.ofList rest)).map (fun b => (b, true))
+  | _ => (parseBits m).map (fun b => (b, false))
+
+def fmtLimbs (l : Codec.Limbs) : String :=
+  toString l.a ++ "," ++ toString l.b ++ "," ++ toString l.c ++ "," ++ toString l.d
+
+def fmtOptLimbs : Option Codec.Limbs → String
+  | none => "-"
+  | some l => fmtLimbs l
+
+def fmtHdr (x : Codec.Hdr) : String := toString x.h ++ " " ++ toString x.round ++ " " ++ fmtLimbs x.sender
+
+/-- `decode <hex>`: what `decodeWALRecord` makes of a record payload -/
+def fmtPayload : Option Codec.Payload → String
+  | none => "err"
+  | some (.start h) => "start " ++ toString h
+  | some (.proposal hdr vr v) => "proposal " ++ fmtHdr hdr ++ " " ++ toString vr ++ " " ++ fmtOptLimbs v
+  | some (.prevote hdr id) => "prevote " ++ fmtHdr hdr ++ " " ++ fmtOptLimbs id
+  | some (.precommit hdr id) => "precommit " ++ fmtHdr hdr ++ " " ++ fmtOptLimbs id
+  | some (.timeout st h r) => "timeout " ++ toString st ++ " " ++ toString h ++ " " ++ toString r
+  | some (.prune h) => "prune " ++ toString h
 
 def run1 (s : Sys) (op : Op) : Sys × String :=
   let (s', o) := s.step op
@@ -84,6 +122,10 @@ def step (s : Sys) (line : String) : Sys × String :=
     | some ft => run1 s (.close ft)
     | none => (s, "bad-op")
   | ["open"] => run1 s .reopen
+  | ["decode", hx] =>
+    match hexToBytes? hx with
+    | some bs => (s, fmtPayload (Codec.decode bs))
+    | none => (s, "bad-op")
   | ["load"] => if s.alive then (s, fmtLoad s.st.load) else (s, "dead")
   | ["disk"] => (s, fmtDisk s.disk)
   | ["writer"] =>
@@ -102,7 +144,7 @@ def step (s : Sys) (line : String) : Sys × String :=
       | some c =>
         match (s.bases c)[i]? with
         | some (b, infl) =>
-          let im := b.resurrect m
+          let im := b.resurrect m.1 m.2
           (s, fmtDisk im ++ " infl=" ++ (if infl then "1" else "0") ++ " => " ++ fmtRecover (recover im))
         | none => (s, "bad-op")
       | none => (s, "bad-op")
@@ -111,7 +153,7 @@ def step (s : Sys) (line : String) : Sys × String :=
     match parseFault ft, i.toNat?, parseMask m with
     | some ft, some i, some m =>
       match parseCOp c ft with
-      | some c => run1 s (.crash c i m)
+      | some c => run1 s (.crash c i m.1 m.2)
       | none => (s, "bad-op")
     | _, _, _ => (s, "bad-op")
   | _ => (s, "bad-op")
